@@ -59,7 +59,21 @@ pub fn expected_roundtrip(ty: u8, raw: &[u8]) -> Resp {
 pub fn expected_de(ty: u8, fmt: u8, shape: u8, raw: &[u8]) -> Option<Resp> {
     let l = type_len(ty);
     let ok = |r: &[u8]| if native_ok(ty, r) { Resp::Ok(native_reencode(ty, r)) } else { Resp::Rej };
-    Some(if fmt & 1 == 0 {
+    let fmt = fmt % 5;
+    if fmt == 2 && (ty == 5 || ty == 9 || ty == 10) {
+        // derived newtype structs: a bare sequence deserialiser hands the sequence to the struct visitor, which
+        // takes it for the list of FIELDS (serde's rule, not the crate's) - not asserted
+        return None;
+    }
+    if fmt == 2 || fmt == 3 {
+        // a sequence of u8 elements of known length: accepted iff the length is the type's and the native decoder accepts
+        return Some(ok(raw));
+    }
+    if fmt == 4 {
+        // a byte slice: only the types that ask for bytes take it; the external Signature type is not asserted
+        return if ty == 8 { None } else if is_bytes_type(ty) { Some(ok(raw)) } else { Some(Resp::Rej) };
+    }
+    Some(if fmt == 0 {
         if is_bytes_type(ty) {
             if shape == 1 {
                 // claimed length 32: short content = truncated stream -> Err; longer content is trailing data (not asserted)
